@@ -341,13 +341,24 @@ Lemma task_start_shape now sys t a a1 o t' :
   (forall p, t' = MsTLink p <-> t = MsTLink p).
 Proof.
   unfold ms_task_start.
-  destruct t as [| m | m | m | m | id m | st p | m tok | tok | p];
-    try (intros H; inversion H; subst; repeat split; auto; intros; assumption).
-  destruct st as [t0 | [ts|] | ts | ts];
-    try (intros H; inversion H; subst; repeat split; auto; intros; assumption).
+  assert (Same : forall t0, (a, @nil ms_obs, Some t0) = (a1, o, Some t') ->
+            a1 = a /\ o = [] /\ ms_task_type t' = ms_task_type t0 /\ ms_is_read_task t' = ms_is_read_task t0 /\
+            (forall b, flags_guard t0 b -> flags_guard t' b) /\ (forall p, t' = MsTLink p <-> t0 = MsTLink p)).
+  { intros t0 H; inversion H; subst.
+    split; [reflexivity|split; [reflexivity|split; [reflexivity|split; [reflexivity|split]]]].
+    - intros b Hb; exact Hb.
+    - intros p; split; intros E; exact E. }
+  assert (Ts : forall st st' p, t = MsTTimeSync st p -> (a, @nil ms_obs, Some (MsTTimeSync st' p)) = (a1, o, Some t') ->
+            a1 = a /\ o = [] /\ ms_task_type t' = ms_task_type t /\ ms_is_read_task t' = ms_is_read_task t /\
+            (forall b, flags_guard t b -> flags_guard t' b) /\ (forall p, t' = MsTLink p <-> t = MsTLink p)).
+  { intros st st' p Et H; inversion H; subst.
+    split; [reflexivity|split; [reflexivity|split; [reflexivity|split; [reflexivity|split]]]].
+    - intros b _. exact I.
+    - intros q; split; intros E; discriminate. }
+  destruct t as [| m | m | m | m | id m | st p | m tok | tok | p]; try (apply Same).
+  destruct st as [t0 | [ts|] | ts | ts]; try (apply Same).
   all: destruct (ms_system_time sys now) as [stm|];
-    [ intros H; inversion H; subst; repeat split; auto; try (intros; discriminate)
-    | destruct (ms_tsync_report _ _ _ _); intros H; inversion H ].
+    [ eapply Ts; reflexivity | destruct (ms_tsync_report _ _ _ _); intros H; inversion H ].
 Qed.
 
 Lemma assoc_next_task_now fuel now sys : forall a a1 o t',
